@@ -14,7 +14,7 @@ import random
 from .. import evidence, tlc
 from ..common import MachineryError, Timer, log, pmap, seed, workdir
 from ..findings import Reporter
-from ..gsm_bind import canon, random_tree, show, to_items, to_json
+from ..gsm_bind import canon, random_tree, show, to_items, to_items_shared, to_json
 from ..tlaval import read_dump
 
 PROP = "C13"
@@ -48,6 +48,11 @@ def observe(case):
         alive.append(ok)
         acc.append(bool(ok and p.is_accepting()))
     obs["alive"], obs["acc"] = alive, acc
+    # the same questions with sub-patterns shared between this pattern and every other one built in this process
+    sh = to_items_shared(re_)
+    m2 = match(sh, w)
+    s2 = starts_with(sh, w)
+    obs["shared"] = [m2 is not None, bool(nfa_match(sh, w)), s2.end if s2 is not None else 0]
     return obs
 
 
@@ -68,6 +73,8 @@ def compare(case, v, res):
         return "StartsWithIsShortestPrefix"
     if not o["sw_tokens_ok"]:
         return "StartsWithRecordsItsItems"
+    if o.get("shared", [inl, inl, sp]) != [inl, inl, sp]:
+        return "SharedSubPatterns"
     if w:
         if o["alive"][-1] != viable:
             return "PatternAliveIsViable"
@@ -138,9 +145,9 @@ def run(tier: str) -> int:
             ev = {"id": k, "kind": "matchers", "re": to_json(case[0]), "w": list(case[1])}
             if res[0] == "ok":
                 o = res[1]
-                ev.update(exc="", match=o["match"], nfa=o["nfa"], sw=o["sw"], alive=o["alive"], acc=o["acc"])
+                ev.update(exc="", match=o["match"], nfa=o["nfa"], sw=o["sw"], alive=o["alive"], acc=o["acc"], shared=o["shared"])
             else:
-                ev.update(exc=res[1] if res[0] == "exc" else "timeout", match=False, nfa=False, sw=0, alive=[], acc=[])
+                ev.update(exc=res[1] if res[0] == "exc" else "timeout", match=False, nfa=False, sw=0, alive=[], acc=[], shared=[False, False, 0])
             f.write(json.dumps(ev) + "\n")
     a = tlc.run("MatcherTrace", tlc.cfg(spec="Spec", postcondition="AllConsumed"), wd, workers=1, env={"TRACE_FILE": str(trace)}, coverage=False)
     if a.violated or a.rc != 0:
@@ -189,7 +196,24 @@ def replay(path: str) -> int:
     from ..common import guarded
 
     re_, w = from_json(case["re"]), tuple(case["w"])
-    res = guarded(observe, (re_, w), 20)
+
+    def observe_in_company(c):
+        # a shared sub-pattern shows its colours only after it has been used in other surroundings: every sub-tree of the
+        # pattern is matched once on its own, starred and doubled before the case itself
+        r, word = c
+
+        def subs(t):
+            yield t
+            for x in t[1:]:
+                if isinstance(x, tuple):
+                    yield from subs(x)
+
+        for t in list(subs(r)):
+            for ctx in (t, ("star", t), ("seq", t, t)):
+                observe((ctx, word))
+        return observe(c)
+
+    res = guarded(observe_in_company, (re_, w), 60)
     print("pattern:", show(re_), " word:", " ".join(w))
     print("observed:", res)
     print("expected (at recording time):", case.get("expected"))
@@ -198,9 +222,9 @@ def replay(path: str) -> int:
     ev = {"id": 0, "kind": "matchers", "re": to_json(re_), "w": list(w)}
     if res[0] == "ok":
         o = res[1]
-        ev.update(exc="", match=o["match"], nfa=o["nfa"], sw=o["sw"], alive=o["alive"], acc=o["acc"])
+        ev.update(exc="", match=o["match"], nfa=o["nfa"], sw=o["sw"], alive=o["alive"], acc=o["acc"], shared=o["shared"])
     else:
-        ev.update(exc=res[1] if res[0] == "exc" else "timeout", match=False, nfa=False, sw=0, alive=[], acc=[])
+        ev.update(exc=res[1] if res[0] == "exc" else "timeout", match=False, nfa=False, sw=0, alive=[], acc=[], shared=[False, False, 0])
     tr = wd / "t.ndjson"
     tr.write_text(json.dumps(ev) + "\n")
     a = tlc.run("MatcherTrace", tlc.cfg(spec="Spec", postcondition="AllConsumed"), wd, workers=1, env={"TRACE_FILE": str(tr)}, coverage=False)
